@@ -23,6 +23,15 @@ package analysis
 //@   pure
 //@   ensures [iff_dotdot] r <==> cleanPath(relPath) == ".." || hasPrefix(cleanPath(relPath), "../")
 
+// C11: the path rules are applied to EVERY target of the node map - whatever its inputs, dependencies or checks: if nothing
+// is reported, no target has an input leaving its package or a file output leaving the workspace
+//@ func CheckTargetConstraints(logger, nodeMap) (errs)
+//@   ensures [every_target_is_checked] len(errs) == 0 ==> (forall i int :: {nodesAlpha(nodeMap)[i]} 0 <= i && i < len(nodesAlpha(nodeMap)) && typeIs(nodesAlpha(nodeMap)[i], "*model.Target") ==>
+//@        inputsStayInPackage(asPtr(nodesAlpha(nodeMap)[i], "*model.Target")) && outputsStayInWorkspace(asPtr(nodesAlpha(nodeMap)[i], "*model.Target")))
+//@ loop #1
+//@   invariant [checked_so_far] len(errs) >= 0 && (len(errs) == 0 ==> (forall i int :: {ranged()[i]} 0 <= i && i <= rangeindex && typeIs(ranged()[i], "*model.Target") ==>
+//@        inputsStayInPackage(asPtr(ranged()[i], "*model.Target")) && outputsStayInWorkspace(asPtr(ranged()[i], "*model.Target"))))
+
 //@ func checkInputPathsRelative(target) (errs)
 //@   pure
 //@   ensures [error_iff_bad_input] len(errs) == 0 <==> (forall j int :: {target.Inputs[j]} 0 <= j && j < len(target.Inputs) ==>
